@@ -43,6 +43,7 @@ sub!(c07, "c07.rs");
 sub!(c18, "c18.rs");
 sub!(c14, "c14.rs");
 sub!(c19, "c19.rs");
+sub!(stall, "stall.rs");
 
 pub async fn main() -> Result<(), easy_error::Terminator> {
     let args: Vec<String> = std::env::args().collect();
